@@ -273,6 +273,23 @@ Theorem C19_generated_payload_accepted :
 Proof. exact generated_payload_accepted. Qed.
 Print Assumptions C19_generated_payload_accepted.
 
+(* ... and only for that long: the configured lifetime is counted once *)
+Theorem C19_generated_payload_rejected_after_lifetime :
+  forall hmac, (forall k m, Forall is_byte (hmac k m)) -> (forall k m, (16 <= length (hmac k m))%nat) ->
+  forall s nonce lt now1 now2,
+    length nonce = 8%nat -> Forall is_byte nonce ->
+    0 <= lt <= 9223372036 -> 0 <= now1 -> now1 + lt < 2 ^ 33 * giga -> 0 <= now2 < 2 ^ 33 * giga ->
+    now1 + lt + lt * giga < now2 ->
+    check_payload hmac s lt now2 (generate_payload hmac s nonce lt now1) = Ok false.
+Proof. exact generated_payload_rejected_after_lifetime. Qed.
+
+(* a GeneratePayload that stores now + lifetime seconds (CheckPayload unchanged) is refuted *)
+Theorem C19_lifetime_counted_twice_refuted :
+  (check_payload w_mac w_secret_a 300 (1450 * giga) (generate_payload w_mac w_secret_a w_nonce 300 (1000 * giga)) = Ok false) /\
+  (check_payload w_mac w_secret_a 300 (1450 * giga) (generate_payload_seconds w_mac w_secret_a w_nonce 300 (1000 * giga)) = Ok true) /\
+  (check_payload w_mac w_secret_a 300 (1250 * giga) (generate_payload w_mac w_secret_a w_nonce 300 (1000 * giga)) = Ok true).
+Proof. exact lifetime_counted_twice_refuted. Qed.
+
 (* a server that keys the MAC with the secret cut (or padded) to the 64-byte HMAC block is refuted *)
 Theorem C19_block_key_design_refuted :
   (check_payload w_mac w_secret_b 300 0 (generate_payload w_mac w_secret_a w_nonce 300 0) = Ok false) /\
